@@ -98,6 +98,11 @@ pub fn choose_free(n: usize, label: &'static str) -> usize {
     choose_cost(n, label, 0)
 }
 
+/// The exploration context installed on this thread (to share it with helper threads).
+pub fn current() -> Option<Ctx> {
+    CTX.with(|c| c.borrow().clone())
+}
+
 /// true iff an exploration context is installed on this thread
 pub fn active() -> bool {
     CTX.with(|c| c.borrow().is_some())
